@@ -2,7 +2,7 @@
    Models: Lex/Charset.v (lex/charset.go), Lex/RegexParse.v (lex/regexp.go), Lex/RegexSpec.v (specification
    evaluator used as the oracle; it is built from the operations proved here). *)
 From Coq Require Import List ZArith Bool Lia.
-From TM Require Import Lex.Tables Lex.Charset Lex.Charset_proofs Lex.RegexParse Lex.RegexParse_proofs Lex.RegexSpec.
+From TM Require Import Lex.Tables Lex.Charset Lex.Charset_proofs Lex.Charset_proofs2 Lex.RegexParse Lex.RegexParse_proofs Lex.RegexParse_proofs2 Lex.RegexSpec.
 Import ListNotations.
 Local Open Scope Z_scope.
 
@@ -35,16 +35,49 @@ Theorem C10_append_range_spec : forall r lo hi x, lo <= hi -> (forall p, In p r 
   mem x (append_range r lo hi) = mem x r || in_range x (lo, hi).
 Proof. exact append_range_spec. Qed.
 
-(* fold (partial): for every SimpleFold function sf and every orbit bound n, folding keeps every member and adds
-   only code points reachable from a member by iterating sf — and in bytes mode (ascii) only such below 0x80.
-   NOT proved: completeness (every orbit member is added when orbits close within n steps); that direction, the
-   normal form of the result and the orbit bound (<= 8 for Go's table) are checked on every run:
-   c10.foldmap (orbit bound), c10.charset "fold" cases (pointwise oracle over all members and their orbits). *)
-Theorem C10_fold_sound_and_extensive_partial : forall sf n cs ascii lb, (forall p, In p cs -> lb <= fst p <= snd p) ->
+(* fold, one direction without any assumption on the fold function: for every sf and every orbit bound n, folding keeps
+   every member and adds only code points reachable from a member by iterating sf — and in bytes mode (ascii) only such
+   below 0x80. *)
+Theorem C10_fold_sound_and_extensive : forall sf n cs ascii lb, (forall p, In p cs -> lb <= fst p <= snd p) ->
   (forall x, mem x cs = true -> mem x (fold sf n cs ascii) = true) /\
   (forall x, mem x (fold sf n cs ascii) = true ->
      mem x cs = true \/ exists c k, mem c cs = true /\ x = Nat.iter k sf c /\ (ascii = false \/ x < 128)).
 Proof. exact fold_sound_and_extensive. Qed.
+
+(* fold, EXACTLY: when sf walks cycles — the orbit of every member returns to it within the orbit bound n (closes; for
+   Go's unicode.SimpleFold and n = 8 this is checked on the full map on every run, c10.foldmap) — the folded set is in
+   normal form and is exactly the union of the members and their fold orbits (in bytes mode: orbit members below 0x80). *)
+Theorem C10_fold_exact : forall sf n cs ascii lb, (forall p, In p cs -> lb <= fst p <= snd p) ->
+  (forall c, mem c cs = true -> closes sf n c) ->
+  (exists lb', wf_cs lb' (fold sf n cs ascii)) /\
+  forall x, mem x (fold sf n cs ascii) = true <->
+    (mem x cs = true \/ exists c j, mem c cs = true /\ x = Nat.iter j sf c /\ (ascii = false \/ x < 128)).
+Proof. exact fold_exact. Qed.
+
+(* class_spec, assembly level.
+   (1) Every successful parseClass returns class_den (Fold option) (the character after '[' is '^') (bytes mode) items
+       subs: newCharset of the member ranges it collected, minus every subtracted set in turn, then folded, then
+       inverted — for the members and subtracted sets collected by its scanning loop.
+   (2) class_den has the documented semantics: for member ranges within [0, max] (lo <= hi), subtracted sets in normal
+       form and (when folding) closing, in-range fold orbits, the result is in normal form and contains x iff
+         not negated: x is a member outside every subtracted set, or lies on the fold orbit of such a code point;
+         negated:     0 <= x <= max and not so.
+   NOT proved (oracle-checked on every documented pattern): that the scanning loop of parseClass collects exactly the
+   ranges and subtracted sets written in the bracket expression (in particular that a range with hi < lo is rejected:
+   C10_parse_examples shows one instance), i.e. class_spec from the concrete syntax, and print_parse. *)
+Theorem C10_parse_class_is_class_den : forall sf named fuel p0 o p' cs, parse_class sf named fuel p0 o = Ok (p', cs) ->
+  exists p1 items subs, next p0 = Ok p1 /\
+    cs = class_den sf (o_fold o) (p_ch p1 =? 94) (o_bytes o) items subs.
+Proof. exact parse_class_den. Qed.
+
+Theorem C10_class_den_spec : forall sf fold neg bytes items subs,
+  (forall p, In p items -> 0 <= fst p <= snd p /\ snd p <= cmax bytes) -> (forall s, In s subs -> wf_cs 0 s) ->
+  (fold = true -> forall c, in_base items subs c ->
+     closes sf 8 c /\ forall j, 0 <= Nat.iter j sf c /\ (bytes = false -> Nat.iter j sf c <= max_rune_u)) ->
+  wf_cs 0 (class_den sf fold neg bytes items subs) /\
+  forall x, mem x (class_den sf fold neg bytes items subs) = true <->
+    if neg then 0 <= x <= cmax bytes /\ ~ in_folded sf fold bytes items subs x else in_folded sf fold bytes items subs x.
+Proof. exact class_den_spec. Qed.
 
 (* escape_spec, digit level: hexval accepts exactly 0-9 A-F a-f with their values (F4: the pinned code took G-Z) *)
 Theorem C10_hexval_spec : forall c,
@@ -68,9 +101,9 @@ Theorem C10_next_in_range : forall p,  pst_ok p ->
 Proof. intros p H. split; [intros p'; apply next_ok; exact H | intros m a e; apply next_err; exact H]. Qed.
 
 (* NOT proved (checked by the oracle on every generated and mutated pattern): "every error of parse/parseClass/
-   parseEscape/parseQuantifier lies inside the pattern" for the whole parser; class_spec and print_parse are
-   replaced by the specification evaluator Lex/RegexSpec.v, which is assembled from the operations proved above
-   and compared with the implementation's AST at language level. *)
+   parseEscape/parseQuantifier lies inside the pattern" for the whole parser; class_spec from the concrete syntax and
+   print_parse are replaced by the specification evaluator Lex/RegexSpec.v, which is assembled from the operations
+   proved above and compared with the implementation's AST at language level. *)
 
 (* ---- the pinned tree violated the statement (repaired: see known_findings.txt) ---- *)
 Example C10_pinned_hexval_refuted : exists c, ~ is_hex_digit c /\ hexval_pinned c <> -1.
@@ -95,6 +128,16 @@ Example C10_examples :
     = [(75, 75); (107, 107)].
 Proof. vm_compute. repeat split; try reflexivity; try (intro H; discriminate H); try discriminate. Qed.
 
+(* hypotheses of C10_fold_exact / C10_class_den_spec are satisfiable: the Kelvin-sign orbit k -> K(U+212A) -> K -> k *)
+Example C10_fold_exact_hypotheses_met :
+  let sf := fun c => if c =? 107 then 8490 else if c =? 8490 then 75 else if c =? 75 then 107 else c in
+  (forall c, mem c [(107, 107)] = true -> closes sf 8 c) /\
+  class_den sf true true false [(107, 107); (97, 99)] [[(98, 98)]] = [(0, 74); (76, 96); (98, 98); (100, 106); (108, 8489); (8491, 1114111)].
+Proof.
+  cbv zeta. split; [|vm_compute; reflexivity].
+  intros c Hc. assert (c = 107) by (unfold mem, in_range in Hc; cbn in Hc; lia). subst c. exists 3%nat. split; [lia|reflexivity].
+Qed.
+
 Example C10_parse_examples :
   let sf := fun c : Z => c in let named := fun _ : list Z => @None (Z * table * table) in
   parse_regexp sf named [92; 120; 52; 49; 43] (mkOpts false false) = Ok (RRep 1 (-1) (RCC [(65, 65)] 0)) /\   (* \x41+ *)
@@ -109,7 +152,10 @@ Print Assumptions C10_invert_spec.
 Print Assumptions C10_subtract_spec.
 Print Assumptions C10_intersect_spec.
 Print Assumptions C10_append_range_spec.
-Print Assumptions C10_fold_sound_and_extensive_partial.
+Print Assumptions C10_fold_sound_and_extensive.
+Print Assumptions C10_fold_exact.
+Print Assumptions C10_parse_class_is_class_den.
+Print Assumptions C10_class_den_spec.
 Print Assumptions C10_hexval_spec.
 Print Assumptions C10_octval_spec.
 Print Assumptions C10_hex_accumulator_exact.
